@@ -104,6 +104,7 @@ type thread struct {
 	selIdx    int
 	wake      int64
 	spinEpoch uint64
+	goid      uint64 // of the goroutine that runs this thread
 	selfW     uint64 // write-epoch steps caused by this thread itself
 	burn      int
 	writes    int
@@ -229,6 +230,7 @@ type Sim struct {
 	th        [MaxThreads]thread
 	seq       uint64
 	wEpoch    uint64
+	baseG     int // goroutines alive once the threads of this run exist: more means the code under test started some
 	clock     int64
 	timers    []*Timer
 	rng       uint64
@@ -251,6 +253,41 @@ var S Sim
 //
 //go:norace
 func Active() bool { return S.active && !S.kill }
+
+// Foreign: a simulation is running and the caller is NOT one of its threads but a goroutine the
+// code under test started itself (internal parallelism, a background worker).  Such a goroutine
+// is not scheduled by the simulator: for it every shim is the plain operation.  The test costs a
+// goroutine count when there are no such goroutines and a stack header parse when there are.
+//
+//go:norace
+func Foreign() bool { return S.active && S.foreign() }
+
+//go:norace
+func (s *Sim) foreign() bool {
+	if runtime.NumGoroutine() <= s.baseG {
+		return false
+	}
+	id := goid()
+	for t := 0; t < s.n; t++ {
+		if s.th[t].goid == id {
+			return false
+		}
+	}
+	return true
+}
+
+// goid parses the goroutine id out of the stack header ("goroutine 123 [running]:").
+//
+//go:norace
+func goid() uint64 {
+	var buf [40]byte
+	n := runtime.Stack(buf[:], false)
+	var id uint64
+	for i := len("goroutine "); i < n && buf[i] >= '0' && buf[i] <= '9'; i++ {
+		id = id*10 + uint64(buf[i]-'0')
+	}
+	return id
+}
 
 // Cur returns the id of the running simulated thread.
 //
@@ -421,7 +458,7 @@ func NoteLock() {
 //go:norace
 func Yield(k Kind, addr unsafe.Pointer) {
 	s := &S
-	if !s.active {
+	if !s.active || s.foreign() {
 		return
 	}
 	if s.kill {
@@ -439,7 +476,7 @@ func Yield(k Kind, addr unsafe.Pointer) {
 //go:norace
 func YieldLock(k Kind, m *LockModel) {
 	s := &S
-	if !s.active {
+	if !s.active || s.foreign() {
 		return
 	}
 	if s.kill {
@@ -458,10 +495,10 @@ func YieldLock(k Kind, m *LockModel) {
 //go:norace
 func YieldTimer(tm *Timer) (int64, bool) {
 	s := &S
-	if s.active && s.kill {
+	if s.active && s.kill && !s.foreign() {
 		killYield(KTimerRecv, nil)
 	}
-	if !s.active || s.kill {
+	if !s.active || s.kill || s.foreign() {
 		return s.clock, false
 	}
 	t := s.cur
@@ -515,7 +552,7 @@ func LookupChan(ch unsafe.Pointer) *Timer {
 //go:norace
 func YieldSelect(tms []*Timer, hasDefault bool) (int, int64) {
 	s := &S
-	if !s.active || s.kill {
+	if !s.active || s.kill || s.foreign() {
 		return -1, s.clock
 	}
 	t := s.cur
@@ -552,7 +589,7 @@ func YieldSelect(tms []*Timer, hasDefault bool) (int, int64) {
 //go:norace
 func YieldSleep(d int64) {
 	s := &S
-	if !s.active || s.kill {
+	if !s.active || s.kill || s.foreign() {
 		return
 	}
 	t := s.cur
@@ -569,7 +606,7 @@ func YieldSleep(d int64) {
 //go:norace
 func Res(write, ok bool, val uint64) {
 	s := &S
-	if !s.active || s.kill {
+	if !s.active || s.kill || s.foreign() {
 		return
 	}
 	th := &s.th[s.cur]
@@ -583,7 +620,7 @@ func Res(write, ok bool, val uint64) {
 //go:norace
 func ResPtr(write, ok bool, p unsafe.Pointer) {
 	s := &S
-	if !s.active || s.kill {
+	if !s.active || s.kill || s.foreign() {
 		return
 	}
 	th := &s.th[s.cur]
@@ -599,7 +636,7 @@ func ResPtr(write, ok bool, p unsafe.Pointer) {
 //go:norace
 func TryAcquire(m *LockModel, write bool) bool {
 	s := &S
-	if !s.active || s.kill {
+	if !s.active || s.kill || s.foreign() {
 		return true
 	}
 	if write {
@@ -624,7 +661,7 @@ func TryAcquire(m *LockModel, write bool) bool {
 //go:norace
 func OpBegin() uint64 {
 	s := &S
-	if !s.active || s.kill {
+	if !s.active || s.kill || s.foreign() {
 		s.seq++
 		return s.seq
 	}
@@ -649,7 +686,7 @@ func OpBegin() uint64 {
 //go:norace
 func OpBounded() {
 	s := &S
-	if !s.active || s.kill {
+	if !s.active || s.kill || s.foreign() {
 		return
 	}
 	s.th[s.cur].bounded = true
@@ -661,7 +698,7 @@ func OpBounded() {
 func OpEnd() uint64 {
 	s := &S
 	s.seq++
-	if s.active && !s.kill {
+	if s.active && !s.kill && !s.foreign() {
 		th := &s.th[s.cur]
 		th.inOp = false
 		th.bounded = false
@@ -678,7 +715,7 @@ func OpEnd() uint64 {
 func ClockRead() int64 {
 	Yield(KLoad, nil)
 	s := &S
-	if s.active && !s.kill && s.cfg.ClockJumpPct > 0 {
+	if s.active && !s.kill && s.cfg.ClockJumpPct > 0 && !s.foreign() {
 		s.nowReads++
 		h := poolMix(s.cfg.Seed^0xc10c, s.nowReads)
 		if int(h%100) < s.cfg.ClockJumpPct {
@@ -726,6 +763,7 @@ func (tm *Timer) Reset(d int64) {
 
 func threadMain(t int, body func(int)) {
 	defer threadExit(t)
+	setGoid(t)
 	waitTurn(int32(t))
 	body(t)
 }
@@ -742,6 +780,9 @@ func threadExit(t int) {
 	joinWG.Done()
 	threadDone(t)
 }
+
+//go:norace
+func setGoid(t int) { S.th[t].goid = goid() }
 
 //go:norace
 func killing() bool { return S.kill }
@@ -983,6 +1024,7 @@ func Run(cfg Config, n int, body func(int)) Result {
 		}
 	}
 	joinWG.Add(n)
+	s.baseG = runtime.NumGoroutine() + n
 	for t := 0; t < n; t++ {
 		go threadMain(t, body)
 	}
